@@ -1,14 +1,15 @@
 #!/bin/bash
-# seeded_sweep.sh [tier] : for every kept seeded change, apply it to /repo, run the check of the property it breaks, undo.
-# Prints CAUGHT / MISSED per seed.  /repo must be clean.
+# seeded_sweep.sh [tier] : for every kept seeded change, apply it to a scratch worktree of /repo, run the check
+# of the property it breaks against that worktree, undo.  Prints CAUGHT / MISSED per seed.  /repo is not touched.
 T=${1:-quick}
-cd /repo && git status --porcelain | grep -q . && { echo "/repo not clean"; exit 1; }
+M=/tmp/mutrepo
+if [ ! -d $M ]; then git -C /repo worktree add -q --detach $M HEAD || exit 1; fi
+git -C $M checkout -q --detach $(git -C /repo rev-parse HEAD) && git -C $M checkout -- . && git -C $M clean -fdq
 for d in /verif/seeded/*/; do
   n=$(basename $d)
   id=$(python3 -c "import json;print(json.load(open('$d/meta.json'))['property'])")
-  git -C /repo apply $d/patch.diff || { echo "$n: patch does not apply"; continue; }
-  out=$(cd /verif && ./check $id $T 2>&1); rc=$?
-  git -C /repo checkout -- .
+  git -C $M apply $d/patch.diff || { echo "$n: patch does not apply"; continue; }
+  out=$(cd /verif && VERIF_REPO=$M ./check $id $T 2>&1); rc=$?
+  git -C $M checkout -- .
   if [ $rc -eq 1 ]; then echo "CAUGHT $n by $id ($(echo "$out" | grep -m1 -o 'key=[^ ]*'))"; else echo "MISSED $n by $id (rc=$rc)"; fi
 done
-git -C /repo status --porcelain | head -3
